@@ -26,6 +26,10 @@ FAULTS = [
     "exec 8< in; read -r l <&8; exec 8<&-", "exec 7> f7", "cat < in > out.tmp", "fsub", "fdefok", "source_ok", "X=1 fdef", "trap ':' USR1; trap - USR1",
     "head -n1 <(gen 300000 1) >/dev/null", "read -r l < <(gen 300000 2)", ": <(gen 300000 3)", "nosuchcmd <(gen 300000 4)", "cat <(gen 300000 5) > /nonexistent-dir/x",
     "gen 300000 6 | head -n1 >/dev/null", "gen 300000 7 | { read -r l; }", "echo x > >(exit 0)", "x=$(gen 300000 8 | head -c 10)", "fpsub",
+    # a function that runs break / continue for its caller's loop (with arguments and a temporary assignment), and directory-stack
+    # operations that fail: whatever the outcome, no frame, scope or stack entry may stay behind
+    "for i in 1 2; do fbrk; done", "for i in 1 2 3; do tag=$i fcont a b; done", "while :; do X=1 fbrk x; break; done", "for i in 1 2; do for j in 1 2; do fbrk2; done; done",
+    "pushd /nonexistent-verif-dir; echo \"ds ${#DIRSTACK[@]}\"", "popd; echo \"ds ${#DIRSTACK[@]}\"", "pushd -n /tmp >/dev/null; popd -n >/dev/null; echo \"ds ${#DIRSTACK[@]}\"",
     "alias q=echo; unalias q", "pushd / >/dev/null; popd >/dev/null", "set -- a b; shift", "hash -r", "type nosuchcmd", "command -v ls >/dev/null", "wait",
 ]
 
@@ -37,6 +41,9 @@ fdef() { echo infdef; } > /nonexistent-dir/x
 fdefok() { echo infdef; } > fdefok.out
 g1() { local l=1; ./missing-cmd; X=1 /nonexistent/bin/cmd; }
 fsub() ( exit 4 )
+fbrk() { break; }
+fcont() { local lc=$1; continue; }
+fbrk2() { break 2; }
 source_ok() { . ./ok.sh; }
 fpsub() { local l; read -r l < <(gen 200000 9); return 2; }
 e() { echo "@m $1"; return $2; }
